@@ -37,4 +37,18 @@ def handle : List String → String
     else "ok"
   | _ => "bad-op"
 
+/-- `C18 rf …` lines: ReadFrom on a non-blocking queued channel with a stalled sender -/
+def handle18 : List String → String
+  | ["rf", q, chunks, n, err, queued, hang] =>
+    let cs := (chunks.splitOn ",").map unhex
+    let free := (field q "q=").toNat?.getD 0
+    let (qd, nn, e) := readFromNoSpace cs free
+    if field hang "hang=" != "0" then s!"specviol ReadFrom did not return on a non-blocking channel whose queue is full ({cs.length} chunks, {free} free slots, sender stalled)"
+    else if field queued "queued=" != hexOf qd.flatten then s!"diff ReadFrom (non-blocking): model queues {hexOf qd.flatten}, implementation {field queued "queued="}"
+    else if e && field err "err=" != "nospace" then s!"specviol ReadFrom returned '{field err "err="}' instead of the no-space error when the queue was full"
+    else if !e && field err "err=" != "nil" then s!"diff ReadFrom returned '{field err "err="}' although every chunk fitted"
+    else if field n "n=" != toString nn then s!"diff ReadFrom count: model {nn}, implementation {n}"
+    else if e then "ok refused" else "ok"
+  | _ => "bad-op"
+
 end Driver.C11
